@@ -108,3 +108,123 @@ Print Assumptions C12_exit_status_spec.
 Print Assumptions C12_failing_line_diagnosed.
 Print Assumptions C12_check_all_lines_processed.
 Print Assumptions C12_check_continues_refuted_on_unchanged_code.
+
+(* ------------------------------------------------------------------------- *)
+(* The functions of b3sum/src/main.rs TRANSLATED statement by statement (gen/GenB3sumFns2.v, tools/gen_coq_b3sumfns.py)  *)
+(* are the model, for all inputs.  Oracles: stream = N -> N, ext_fill = SFILL (= srange), ext_hash_file = fsys,          *)
+(* ext_open_checkfile = opener (pending read_line results); stdout `o` / stderr `e` are threaded (any initial content).  *)
+(* ------------------------------------------------------------------------- *)
+From V Require Import Base.Str gen.GenB3sumFns2 Proofs.GenB3sumFnsP Proofs.GenB3sumFns2P.
+
+(* check_one_line: same success flag, stdout grows by the model's text, stderr by `b3sum: <parse error>` *)
+Theorem C12_src_check_one_line : forall (fs : fsys) seek quiet fuel line o e,
+  (length line <= fuel)%nat -> str_len line < 18446744073709551616 ->
+  gen_check_one_line false (N -> N) fs SFILL quiet seek fuel line o e =
+  match check_one_line fixed_cfg fs seek quiet line with
+  | Ok (b, out) => Ok (b, o ++ out, e ++ parse_err_line (parse_check_line fixed_cfg line))
+  | Panic c => Panic c
+  | OutOfFuel => OutOfFuel
+  end.
+Proof. exact gen_check_one_line_spec. Qed.
+
+(* check_one_checkfile: an unopenable checkfile is Err (counter and streams untouched); otherwise the line loop is the
+   model's check_lines: every line is checked, each failing one adds 1 (saturating) to files_failed, a read error ends
+   the function with Err (loop_rel: Ok(()) with the model's counter / Err / never ExitCode) *)
+Theorem C12_src_check_one_checkfile : forall (fs : fsys) opener seek quiet fuel path ff o e,
+  match opener path with
+  | inl msg => gen_check_one_checkfile false (N -> N) fs SFILL opener quiet seek fuel path ff o e = Ok (inl msg, ff, o, e)
+  | inr rd => lines_ok fuel rd ->
+      match check_lines fixed_cfg fs seek quiet (cl_of rd) ff with
+      | (out, inr ff') =>
+          gen_check_one_checkfile false (N -> N) fs SFILL opener quiet seek fuel path ff o e = Ok (inr tt, ff', o ++ out, e ++ err_log rd)
+      | (out, inl ExitError) => exists msg ff',
+          gen_check_one_checkfile false (N -> N) fs SFILL opener quiet seek fuel path ff o e = Ok (inl msg, ff', o ++ out, e ++ err_log rd)
+      | (_, inl (ExitPanic c)) =>
+          gen_check_one_checkfile false (N -> N) fs SFILL opener quiet seek fuel path ff o e = Panic c \/
+          gen_check_one_checkfile false (N -> N) fs SFILL opener quiet seek fuel path ff o e = OutOfFuel
+      | (_, inl (ExitCode _)) => False
+      end
+  end.
+Proof. exact gen_check_one_checkfile_spec. Qed.
+
+(* the saturating increment of the source is the model's *)
+Theorem C12_src_saturating_add : forall ff, s_sat_add64 ff 1 = sat_add1 ff.
+Proof. exact sat_add_eq. Qed.
+
+(* write_hex_output (the stream delivers bytes): stdout grows by exactly the model's hex text *)
+Theorem C12_src_write_hex_output : forall St, (forall i, St i < 256) -> forall len fuel pos o e,
+  gen_write_hex_output (N -> N) SFILL len fuel (St, pos) o e =
+  match write_hex_output fuel St pos len with
+  | Ok h => Ok (inr tt, o ++ h, e)
+  | Panic c => Panic c
+  | OutOfFuel => OutOfFuel
+  end.
+Proof. exact gen_write_hex_output_spec. Qed.
+
+(* write_raw_output: io::copy of output.take(len) with a copy buffer of any size writes the model's bytes *)
+Theorem C12_src_write_raw_output : forall St chunk len fuel pos o e,
+  gen_write_raw_output (N -> N) SFILL chunk len fuel (St, pos) o e =
+  match write_raw_output fuel chunk St pos len with
+  | Ok d => Ok (inr tt, o ++ d, e)
+  | Panic c => Panic c
+  | OutOfFuel => OutOfFuel
+  end.
+Proof. exact gen_write_raw_output_spec. Qed.
+
+(* with the fuel of C12_hex_output_spec / C12_raw_output_spec: the translated functions emit the digest *)
+Theorem C12_src_outputs_are_digest : forall St, (forall i, St i < 256) -> forall chunk seek len o e, seek + len <= U64_MAX ->
+  gen_write_hex_output (N -> N) SFILL len (hex_fuel len) (St, seek) o e = Ok (inr tt, o ++ hex_of_bytes (digest St seek len), e) /\
+  gen_write_raw_output (N -> N) SFILL chunk len (S (N.to_nat (len / N.max 1 chunk))) (St, seek) o e = Ok (inr tt, o ++ digest St seek len, e).
+Proof.
+  intros St BY chunk seek len o e B. split.
+  - rewrite (gen_write_hex_output_spec St BY), (hex_output_spec St seek len B). reflexivity.
+  - rewrite gen_write_raw_output_spec, (raw_output_spec chunk St seek len B). reflexivity.
+Qed.
+
+(* the closure of main (everything after the thread pool is built), --check: stdout is the model's; the value passed to
+   std::process::exit is the model's exit status of the final count; an Err leaving main (unopenable checkfile, read
+   error) is the model's ExitError.  cf_of opener p = None (cannot be opened) | Some (lines) *)
+Theorem C12_src_main_check : forall lossy (fs : fsys) opener chunk len seek quiet raw nn tag paths fuel o e,
+  (forall p rd, In p paths -> opener p = inr rd -> lines_ok fuel rd) ->
+  let g := gen_main lossy false (N -> N) fs SFILL opener chunk quiet len seek raw nn tag true paths fuel o e in
+  match b3sum_check fixed_cfg fs seek quiet (map (cf_of opener) paths) with
+  | (out, ExitCode ff) => exists e', g = Ok (inr (exit_status (ExitCode ff)), o ++ out, e')
+  | (out, ExitError) => exists msg e', g = Ok (inl msg, o ++ out, e')
+  | (_, ExitPanic c) => g = Panic c \/ g = OutOfFuel
+  end.
+Proof. exact gen_main_check_spec. Qed.
+
+(* hash_one_input: a failing hash_path is Err with nothing printed; otherwise stdout grows by the model's output *)
+Theorem C12_src_hash_one_input : forall (fs : fsys) chunk fl fuel path o e,
+  (N.to_nat (f_length fl / 64) < fuel)%nat -> (N.to_nat (f_length fl / N.max 1 chunk) < fuel)%nat ->
+  let g := gen_hash_one_input utf8_lossy false (N -> N) fs SFILL chunk (f_length fl) (f_seek fl)
+             (f_raw fl) (f_no_names fl) (f_tag fl) fuel path o e in
+  match fs path with
+  | inl msg => g = Ok (inl msg, o, e)
+  | inr St => (forall i, St i < 256) -> exists out, hash_one_input fl St path = Ok out /\ g = Ok (inr tt, o ++ out, e)
+  end.
+Proof. exact gen_hash_one_input_spec. Qed.
+
+(* the closure of main without --check: stdout and the failure count are the model's run_hash; exit status from the count *)
+Theorem C12_src_main_hash : forall (fs : fsys) opener chunk fl quiet paths fuel o e,
+  (N.to_nat (f_length fl / 64) < fuel)%nat -> (N.to_nat (f_length fl / N.max 1 chunk) < fuel)%nat ->
+  (forall p St, In p paths -> fs p = inr St -> forall i, St i < 256) ->
+  exists out ff e', run_hash fl (map (in_of fs) paths) 0 = Ok (out, ff) /\
+    gen_main utf8_lossy false (N -> N) fs SFILL opener chunk quiet (f_length fl) (f_seek fl)
+      (f_raw fl) (f_no_names fl) (f_tag fl) false paths fuel o e = Ok (inr (exit_status (ExitCode ff)), o ++ out, e').
+Proof. exact gen_main_hash_spec. Qed.
+
+(* the status expression of the translated main is the one pinned by the literal anchors *)
+Theorem C12_src_exit_status_expr : forall ff, exit_status (ExitCode ff) = GenB3sum.b3_exit_status ff.
+Proof. intros ff. reflexivity. Qed.
+
+Print Assumptions C12_src_check_one_line.
+Print Assumptions C12_src_check_one_checkfile.
+Print Assumptions C12_src_saturating_add.
+Print Assumptions C12_src_write_hex_output.
+Print Assumptions C12_src_write_raw_output.
+Print Assumptions C12_src_outputs_are_digest.
+Print Assumptions C12_src_main_check.
+Print Assumptions C12_src_hash_one_input.
+Print Assumptions C12_src_main_hash.
+Print Assumptions C12_src_exit_status_expr.
